@@ -194,7 +194,6 @@ def seqRound : Nat → Mode → List Particle → Bool → Nat → List Node →
     | .error .unexpected =>
       if mayEnd && xs.length == startLen then pure ⟨none, xs, 1⟩
       else if m == .strict then .error .unexpected
-      else if p.isOrderIndicator then .error .typeError      -- item_result.update(None)
       else if xs.isEmpty then pure ⟨some [.failed], xs, 1⟩
       else do
         let r ← seqRound gas m ps mayEnd startLen xs
